@@ -269,9 +269,42 @@ def dispatch_shape(model):
     return fi, facts
 
 
-def class_dispatch_targets(fi):
+def _selects_utpm_namespace(model, fi, call):
+    """`H(P, ...)` with H a module-level function of the dispatcher's module that returns the namespace implementing an
+    operation for its arguments: every return value is a bare name, and `UTPM` is among them (directly, or as the variable of a
+    loop over a tuple of classes that contains UTPM) under an isinstance test of a parameter"""
+    if model is None or not (isinstance(call, ast.Call) and isinstance(call.func, ast.Name) and call.args):
+        return False
+    r = model.resolve_dotted(fi.module, call.func.id)
+    if r is None or r[0] != 'func':
+        return False
+    h = r[1]
+    rets = [n for n in walk_no_nested(h.node) if isinstance(n, ast.Return)]
+    if not rets or not all(isinstance(x.value, ast.Name) for x in rets):
+        return False
+    loops = {}
+    for n in walk_no_nested(h.node):
+        if isinstance(n, ast.For) and isinstance(n.target, ast.Name) and isinstance(n.iter, (ast.Tuple, ast.List)) \
+                and all(isinstance(e, ast.Name) for e in n.iter.elts):
+            loops[n.target.id] = [e.id for e in n.iter.elts]
+    names = set()
+    for x in rets:
+        names |= set(loops.get(x.value.id, [x.value.id]))
+    return 'UTPM' in names
+
+
+def _ifexp_leaves(e):
+    """names at the leaves of a (nested) conditional expression; [] if a leaf is not a bare name"""
+    if isinstance(e, ast.IfExp):
+        a, b = _ifexp_leaves(e.body), _ifexp_leaves(e.orelse)
+        return a + b if a and b else []
+    return [e.id] if isinstance(e, ast.Name) else []
+
+
+def class_dispatch_targets(fi, model=None):
     """method names a dispatcher function reaches on the class of one of its arguments (or on UTPM explicitly):
         P.__class__.NAME(...)   type(P).NAME(...)   getattr(P.__class__, 'NAME')(...)   UTPM.NAME(...)   P.NAME(...)
+        H(P, ..).NAME(...) with H a namespace-selecting helper (needs the model)
     -> {NAME: [call nodes]}; P must be a parameter of the dispatcher (or a name bound from one by a loop over *args)"""
     params = set(fi.params) | set(fi.kwonly) | ({fi.vararg} if fi.vararg else set())
     for n in walk_no_nested(fi.node):
@@ -302,6 +335,12 @@ def class_dispatch_targets(fi):
             if cls_of_param(f.value) is not None or (isinstance(f.value, ast.Name) and f.value.id == 'UTPM'):
                 out.setdefault(f.attr, []).append(c)
             elif isinstance(f.value, ast.Name) and f.value.id in params:
+                out.setdefault(f.attr, []).append(c)
+            elif isinstance(f.value, ast.IfExp) and 'UTPM' in _ifexp_leaves(f.value) \
+                    and any(isinstance(x, ast.Name) and x.id in params for x in ast.walk(f.value.test)):
+                # (Function if <test of P> else UTPM if <test of P> else numpy).NAME(...)
+                out.setdefault(f.attr, []).append(c)
+            elif _selects_utpm_namespace(model, fi, f.value) and any(isinstance(a, ast.Name) and a.id in params for a in f.value.args):
                 out.setdefault(f.attr, []).append(c)
         elif isinstance(f, ast.Call) and isinstance(f.func, ast.Name) and f.func.id == 'getattr' and len(f.args) >= 2 \
                 and isinstance(f.args[1], ast.Constant) and isinstance(f.args[1].value, str) \
